@@ -109,7 +109,7 @@ class CertFam(Family):
                 view = bv + rng.choice([-1, 1, 5]) if bv + 1 > 1 else bv + 1
                 view = max(view, 0)
             elif kind == "relabel-hash":
-                h = rng.choice(["X", "unk:zz"] + [x for x, _ in views if x != b] or ["X"])
+                h = rng.choice(["X", "unk:zz", "G", "G"] + [x for x, _ in views if x != b] or ["X"])
             elif kind == "swap" and len(pairs) >= 2:
                 (a, sa), (c, sc) = pairs[0], pairs[1]
                 pairs[0], pairs[1] = (a, sc), (c, sa)
